@@ -1,6 +1,6 @@
 (* Dispatch: the single entry point [run : sx -> sx] of the executable model. *)
 From Coq Require Import List ZArith NArith Bool.
-From SV Require Import Sx Str Omap Beat Props Notes Group Generated.Tables.
+From SV Require Import Sx Str Omap Beat Props Notes Group Msd Simfile Generated.Tables.
 Import ListNotations.
 Open Scope Z_scope.
 
@@ -24,6 +24,70 @@ Definition run_props (cmd : Z) (args : list sx) : sx :=
   | 181, [m; ops] =>                       (* SM chart history *)
       do m' <- un_dict m; do ops' <- un_list un_op ops;
       let '(mf, rs) := run_ops (smc_step Tables.sm_chart_properties) m' ops' in ok (L [sx_dict mf; sx_list sx_res rs])
+  | _, _ => bad_request
+  end.
+
+Definition un_param : sx -> option param := un_list un_str.
+Definition run_msd (cmd : Z) (args : list sx) : sx :=
+  match cmd, args with
+  | 10, [st; t] => do st' <- un_bool st; do t' <- un_str t;
+      let '(ps, s) := parse st' t' in ok (L [sx_list sx_param ps; sx_status s])
+  | 11, [cs] => do cs' <- un_param cs; ok (sx_str (render_param cs'))
+  | 12, [st; t] => do st' <- un_bool st; do t' <- un_str t; ok (sx_lres sx_sm (load_sm st' t'))
+  | 13, [st; t] => do st' <- un_bool st; do t' <- un_str t; ok (sx_lres sx_ssc (load_ssc st' t'))
+  | 14, [st; nm; t] => do st' <- un_bool st; do nm' <- un_opt un_str nm; do t' <- un_str t;
+      ok (sx_lres sx_simfile (load st' nm' t'))
+  | 15, [sf] => do sf' <- un_sm sf; ok (sx_str (ser_sm sf'))
+  | 16, [sf] => do sf' <- un_ssc sf; ok (sx_opt sx_str (ser_ssc sf'))
+  | 17, [st; t] => do st' <- un_bool st; do t' <- un_str t; ok (sx_lres sx_props (ssc_chart_from_str st' t'))
+  | 18, [ps] => do ps' <- un_list un_param ps; ok (sx_lres sx_sm (load_sm_params ps' StOk))
+  | 19, [ps] => do ps' <- un_list un_param ps; ok (sx_lres sx_ssc (load_ssc_params ps' StOk))
+  | 20, [vs] => do vs' <- un_list un_str vs; ok (sx_opt sx_smchart (chart_from_msd vs'))
+  | 21, [l; t] => do l' <- un_bool l; do t' <- un_str t; ok (sx_bool (safe l' t'))
+  | 22, [c] => do c' <- un_props c; ok (sx_opt sx_str (ser_ssc_chart c'))
+  | 23, [c] => do c' <- un_smchart c; ok (sx_str (ser_sm_chart c'))
+  | 27, [c] => do c' <- un_props c;
+      match ser_ssc_chart c' with
+      | Some t => ok (L [sx_lres sx_props (ssc_chart_from_str true t)])
+      | None => ok (L [])
+      end
+  | 24, [sf] => do sf' <- un_sm sf;
+      let t := ser_sm sf' in
+      let r := load_sm true t in
+      ok (L [sx_str t; sx_lres sx_sm r; sx_lres sx_simfile (load true None t);
+             match r with LOk sf2 => L [sx_str (ser_sm sf2)] | _ => L [] end])
+  | 25, [sf] => do sf' <- un_ssc sf;
+      match ser_ssc sf' with
+      | None => ok (L [])
+      | Some t =>
+          let r := load_ssc true t in
+          ok (L [L [sx_str t; sx_lres sx_ssc r; sx_lres sx_simfile (load true None t);
+                    match r with LOk sf2 => sx_opt sx_str (ser_ssc sf2) | _ => L [] end]])
+      end
+  | 26, [isssc; st; t] => do isssc' <- un_bool isssc; do st' <- un_bool st; do t' <- un_str t;
+      if isssc' then
+        match load_ssc st' t' with
+        | LOk sf1 =>
+            match ser_ssc sf1 with
+            | Some t1 =>
+                match load_ssc true t1 with
+                | LOk sf2 => ok (L [A 0; sx_ssc sf1; sx_str t1; sx_ssc sf2; sx_opt sx_str (ser_ssc sf2)])
+                | r => ok (L [A 2; sx_ssc sf1; sx_str t1; sx_lres sx_ssc r])
+                end
+            | None => ok (L [A 1; sx_ssc sf1])
+            end
+        | r => ok (L [A 3; sx_lres sx_ssc r])
+        end
+      else
+        match load_sm st' t' with
+        | LOk sf1 =>
+            let t1 := ser_sm sf1 in
+            match load_sm true t1 with
+            | LOk sf2 => ok (L [A 0; sx_sm sf1; sx_str t1; sx_sm sf2; L [sx_str (ser_sm sf2)]])
+            | r => ok (L [A 2; sx_sm sf1; sx_str t1; sx_lres sx_sm r])
+            end
+        | r => ok (L [A 3; sx_lres sx_sm r])
+        end
   | _, _ => bad_request
   end.
 
@@ -72,6 +136,7 @@ Definition dispatch_request (req : sx) : sx :=
   match req with
   | L (A cmd :: args) =>
       if (140 <=? cmd) && (cmd <? 150) then run_beat cmd args
+      else if (10 <=? cmd) && (cmd <? 40) then run_msd cmd args
       else if (70 <=? cmd) && (cmd <? 90) then run_notes cmd args
       else if (90 <=? cmd) && (cmd <? 100) then run_group cmd args
       else if (180 <=? cmd) && (cmd <? 190) then run_props cmd args
